@@ -174,39 +174,57 @@ func R13EventLog(c *Ctx) {
 	}
 	// --- SendEvent: one WriteMessage under the mutex
 	nWrite := 0
-	fdSE, pkSE := c.P.FuncDecl(PkgServer, "Teamserver.SendEvent")
-	var lu *LockUnit
-	if fdSE != nil {
-		lu = c.AnalyseLocks(pkSE, fdSE, fdSE.Body, "SendEvent")
-	}
-	EachCall(se, func(call ssa.CallInstruction) {
-		n := CalleeName(call)
-		if n == "(*github.com/gorilla/websocket.Conn).WriteMessage" || n == "(*github.com/gorilla/websocket.Conn).WriteJSON" {
-			nWrite++
-			if blockInCycle(call.Block()) {
-				nWrite += 100
+	pkSE := c.P.ByPath[PkgServer]
+	var writeFn *ssa.Function
+	for _, wf := range HelperClosure(se, 2) {
+		wf := wf
+		EachCall(wf, func(call ssa.CallInstruction) {
+			n := CalleeName(call)
+			if n == "(*github.com/gorilla/websocket.Conn).WriteMessage" || n == "(*github.com/gorilla/websocket.Conn).WriteJSON" {
+				nWrite++
+				writeFn = wf
+				if blockInCycle(call.Block()) {
+					nWrite += 100
+				}
 			}
+		})
+	}
+	// the mutex is held at the write: in the function that writes, or — when the write sits in a helper — at the
+	// call of that helper in SendEvent
+	heldAt := func(fn *ssa.Function, calleeName string) bool {
+		fd, ok := fn.Syntax().(*ast.FuncDecl)
+		if !ok || fd.Body == nil || pkSE == nil {
+			return false
 		}
-	})
-	heldAtWrite := false
-	if lu != nil {
+		lu := c.AnalyseLocks(pkSE, fd, fd.Body, fn.Name())
+		if lu == nil {
+			return false
+		}
 		for node, must := range lu.MustAt {
 			found := false
 			ast.Inspect(node, func(n ast.Node) bool {
 				if ce, ok := n.(*ast.CallExpr); ok {
-					if fn := Callee(pkSE.TypesInfo, ce); fn != nil && fn.Name() == "WriteMessage" {
+					if f := Callee(pkSE.TypesInfo, ce); f != nil && f.Name() == calleeName {
 						found = true
 					}
 				}
 				return true
 			})
-			if found && len(must) > 0 {
+			if found {
 				for k := range must {
 					if strings.HasSuffix(k, ".Mutex") {
-						heldAtWrite = true
+						return true
 					}
 				}
 			}
+		}
+		return false
+	}
+	heldAtWrite := false
+	if writeFn != nil {
+		heldAtWrite = heldAt(writeFn, "WriteMessage")
+		if !heldAtWrite && writeFn != se {
+			heldAtWrite = heldAt(se, writeFn.Name())
 		}
 	}
 	if nWrite == 1 && heldAtWrite {
@@ -280,26 +298,30 @@ func R13Deadline(c *Ctx) {
 		c.R.Anchor(rule, "server.(*Teamserver).SendEvent")
 		return
 	}
-	EachCall(se, func(call ssa.CallInstruction) {
-		if CalleeName(call) != "(*github.com/gorilla/websocket.Conn).WriteMessage" {
-			return
-		}
-		conn := call.Common().Args[0]
-		ok := false
-		EachCall(se, func(c2 ssa.CallInstruction) {
-			if CalleeName(c2) == "(*github.com/gorilla/websocket.Conn).SetWriteDeadline" && InstrDominates(c2, call) {
-				if AccessPath(c2.Common().Args[0]) == AccessPath(conn) {
-					ok = true
+	// the write (and its deadline) may have been moved into an unexported helper of SendEvent
+	for _, wf := range HelperClosure(se, 2) {
+		wf := wf
+		EachCall(wf, func(call ssa.CallInstruction) {
+			if CalleeName(call) != "(*github.com/gorilla/websocket.Conn).WriteMessage" {
+				return
+			}
+			conn := call.Common().Args[0]
+			ok := false
+			EachCall(wf, func(c2 ssa.CallInstruction) {
+				if CalleeName(c2) == "(*github.com/gorilla/websocket.Conn).SetWriteDeadline" && InstrDominates(c2, call) {
+					if AccessPath(c2.Common().Args[0]) == AccessPath(conn) {
+						ok = true
+					}
 				}
+			})
+			construct := "client.Connection.WriteMessage(…) without SetWriteDeadline"
+			if ok {
+				c.R.Ok(rule, FuncShort(se), "client.Connection.WriteMessage(…) with SetWriteDeadline", c.pos(call.Pos()), "a stalled peer times out", true)
+			} else {
+				c.R.Bad(rule, FuncShort(se), construct, c.pos(call.Pos()), "the write has no deadline: an operator whose connection stalls (peer stops reading) blocks this write indefinitely while holding its mutex; EventBroadcast is sequential, so every other operator and the agent request that triggered the broadcast wait behind it")
 			}
 		})
-		construct := "client.Connection.WriteMessage(…) without SetWriteDeadline"
-		if ok {
-			c.R.Ok(rule, FuncShort(se), "client.Connection.WriteMessage(…) with SetWriteDeadline", c.pos(call.Pos()), "a stalled peer times out", true)
-		} else {
-			c.R.Bad(rule, FuncShort(se), construct, c.pos(call.Pos()), "the write has no deadline: an operator whose connection stalls (peer stops reading) blocks this write indefinitely while holding its mutex; EventBroadcast is sequential, so every other operator and the agent request that triggered the broadcast wait behind it")
-		}
-	})
+	}
 }
 
 // eventSplice reports "" when v is append(L[:i], L[i+1:]...) over the retained list L.
